@@ -597,7 +597,8 @@ def grd3_sequence_filter(P, R, L, rule="GRD-3"):
     ni = P.body(NEW_ITER)
     if ni is not None:
         for c in normal_sites(ni, "iterator::DatabaseIterator::new"):
-            os_ = origins(ni, c.args[2])
+            from ..dataflow import deep_origins
+            os_ = deep_origins(P, ni, c.args[2])
             ok = bool(os_) and all(o.kind == "call" and o.name in SEQ_SRC for o in os_)
             R.check(rule, NEW_ITER + "|iterator-sequence-provenance", ok, c.where(),
                     "the iterator's sequence_snapshot is the snapshot's or the one read under the mutex", "%s" % sorted({repr(o) for o in os_}))
